@@ -439,6 +439,35 @@ def canonicalise_locals(ctx):
     return done
 
 
+def family_body(ctx, hb):
+    """the body of `hb` together with the bodies of the local functions the reviewed tree does not have that it still refers to after
+    normalisation (helpers that could not be folded in: used as a function value such as `.map(helper)`, recursive): one synthetic block,
+    so that a rule anchored in `hb` reads the code that was merely moved out of it"""
+    ref = set(_reference().get("functions") or [])
+    by_path = {(b["crate"], b["path"]): b for b in ctx.facts.hir}
+    seen = {hb["path"]}
+    parts = [hb["body"]]
+    todo = [hb["body"]]
+    while todo:
+        body = todo.pop()
+        for n in walk(body):
+            path = None
+            if n.get("k") in ("Call", "MethodCall") and n.get("callee"):
+                path = n["callee"]
+            elif n.get("k") == "Path" and n["res"].get("r") == "def" and n["res"].get("path"):
+                path = n["res"]["path"]
+            if path and path not in seen and (hb["crate"], path) in by_path and (hb["crate"] + "::" + path) not in ref:
+                b2 = by_path[(hb["crate"], path)]
+                if b2.get("mac") or b2.get("impl_trait"):
+                    continue
+                seen.add(path)
+                parts.append(b2["body"])
+                todo.append(b2["body"])
+    if len(parts) == 1:
+        return hb["body"]
+    return {"k": "Block", "sp": hb["body"].get("sp"), "stmts": parts[1:], "expr": parts[0], "family_of": hb["path"]}
+
+
 def inline_helpers(ctx):
     """inline the helper functions the reviewed tree does not have (see vjsx/normalise.py)"""
     from .. import normalise
@@ -451,10 +480,15 @@ def inline_helpers(ctx):
             keep.add(b["crate"] + "::" + b["path"])
     done = normalise.inline_new_helpers(ctx.facts, keep)
     hoisted = normalise.propagate_option_locals(ctx.facts)
-    if done or hoisted:
+    scalar = normalise.scalarise_new_structs(ctx.facts, set(LOCAL_NAMES.get("structs") or [])) if LOCAL_NAMES.get("structs") else {}
+    if done or hoisted or scalar:
         ctx.cache.clear()
     for k, v in hoisted.items():
         done["option reads held in locals of " + k] = v
+    for k, v in scalar.items():
+        done["locals grouped into a new struct in " + k] = ["%s.{%s}" % (a, ", ".join(fs)) for a, fs in v.items()]
+    if scalar:
+        canonicalise_locals(ctx)    # the fields carry the names the separate locals had (or new ones): align them like any local
     return done
 
 
